@@ -68,6 +68,9 @@ func (c *Check) Broken(format string, a ...any) {
 	c.broken = append(c.broken, fmt.Sprintf(format, a...))
 }
 
+// BrokenList returns the infrastructure failures recorded so far.
+func (c *Check) BrokenList() []string { return c.broken }
+
 func (c *Check) add(o *Obligation) *Obligation {
 	// ordinal among identical keys keeps keys unique and line-free
 	n := c.ordinals[o.Rule+"|"+o.Key]
